@@ -248,8 +248,9 @@ def field(draw, dspec, field_units, kinds=("zero", "float", "constant", "gauge_p
     B = float(f"{b * sc['Bc2'] / orc.FIELD[field_units]:.3g}")
     out = dict(kind=k, B=B)
     if k in ("ramp", "ramp_gauge"):
-        out["tmax"] = draw(rf(0.05, 3.0))
+        out["tmax"] = draw(st.one_of(logu(-2, 0), logu(-1, 0), rf(1.0, 3.0)))  # 0.01 .. 3: about half of the ramps end within the run
         out["initial"] = draw(st.sampled_from([0.0, 0.0, 0.5, 1.0]))
         # also slow ramps: the potential changes by a tiny relative amount per step
-        out["final"] = draw(st.sampled_from([1.0, 1.0, -1.0, out["initial"] + 1e-3, out["initial"] + 2e-5]))
+        # ... and ramps that end at exactly zero field after a non-zero start (the field is switched off during the run)
+        out["final"] = draw(st.sampled_from([1.0, 1.0, -1.0, out["initial"] + 1e-3, out["initial"] + 2e-5] + ([0.0, 0.0, 0.0] if out["initial"] else [])))
     return out
